@@ -1,10 +1,13 @@
 import CG.Model.TxScript
+import CG.Proofs.Templates
+import CG.Proofs.Der
 /-!
 # C03 — Spends are authorised only by valid, canonical signatures
 Property theorems only.  Model of the per-input script check: `CG.Model.TxScript`.
 -/
 namespace CG.Props.C03
 open CG CG.Model.Interp CG.Model.ScriptNum CG.Model.TxScript
+open CG.Proofs.Templates CG.Proofs.InterpFlow
 
 /-- **the locking script always runs** (repaired structure): if validation of an input succeeds
     then the unlocking script ran to completion, and the locking script was executed from its
@@ -74,5 +77,428 @@ theorem C03_repaired_rejects_bypasses :
     validateInput noHashes rejectAll () [0x51, 0x4c, 0x1a] p2pkh0 1 = .err "ScriptError" ∧
     validateInput noHashes rejectAll () [0x1a] p2pkh0 1 = .err "ScriptError" := by
   refine ⟨?_, ?_, ?_, ?_⟩ <;> decide
+
+
+/-! ## The three key-locked templates: soundness for EVERY initial stack, checker and rule set
+
+`p2pkhLock h = 76 a9 14 ‖ h ‖ 88 ac`, `p2pkLock pk = |pk| ‖ pk ‖ ac` (`21 ‖ pk ‖ ac` for a compressed,
+`41 ‖ pk ‖ ac` for an uncompressed key), `multisigLock m keys = OP_m ‖ (|k| ‖ k)* ‖ OP_n ‖ ae`
+(definitions in `CG.Proofs.Templates`).  Stacks have their top at the head. -/
+
+theorem decodeBool_boolItem (b : Bool) : decodeBool (boolItem b) = b := by cases b <;> decide
+
+/-- the top item of an evaluation result is true -/
+def TopTrue {σ : Type} (r : EvalResult σ) : Prop := ∃ t rest, r.stack = t :: rest ∧ decodeBool t = true
+
+/-- a template ending in OP_CHECKSIG left a true top item: the checker said `Ok(true)` -/
+theorem sigResult_sound {σ : Type} (C : Checker σ) (c0 : σ) (script sig pk : Bytes) (rest alt : Stack)
+    (stop : Nat) (r : EvalResult σ) (he : pack (sigResult C c0 script sig pk rest alt stop) = .ok r)
+    (ht : TopTrue r) :
+    (C.checkSig c0 sig pk (cleaned script 0 sig)).1 = .ok true ∧ r.stack = [1] :: rest ∧
+      r.chk = (C.checkSig c0 sig pk (cleaned script 0 sig)).2 := by
+  unfold sigResult at he
+  rcases hc : C.checkSig c0 sig pk (cleaned script 0 sig) with ⟨o, c'⟩
+  rw [hc] at he
+  cases o with
+  | ok b =>
+    simp only [pack, Outcome.ok.injEq] at he
+    subst he
+    obtain ⟨t, rest', hst, hb⟩ := ht
+    simp only [List.cons.injEq] at hst
+    rw [← hst.1, decodeBool_boolItem] at hb
+    subst hb
+    exact ⟨rfl, rfl, rfl⟩
+  | err e => simp [pack] at he
+  | panic p => simp [pack] at he
+
+/-- **P2PKH is sound**: whatever the initial stack, alt stack, checker, checker state, hash functions
+    and rule set, if `OP_DUP OP_HASH160 <h> OP_EQUALVERIFY OP_CHECKSIG` completes with a true top
+    item then the stack held a public key hashing to `h` with a signature under it, and `check_sig`
+    answered `Ok(true)` for exactly that pair with the whole locking script as script code. -/
+theorem C03_p2pkh_sound {σ : Type} (H : Hashes) (C : Checker σ) (c0 : σ) (h : Bytes) (hh : h.length = 20)
+    (flags : Nat) (s0 : Stack) (alt : Option Stack) (r : EvalResult σ)
+    (he : coreEval H C c0 (p2pkhLock h) flags none none (some s0) alt = .ok r) (ht : TopTrue r) :
+    ∃ pk sig rest, s0 = pk :: sig :: rest ∧ H.hash160 pk = h ∧
+      (C.checkSig c0 sig pk (cleaned (p2pkhLock h) 0 sig)).1 = .ok true ∧
+      r.stack = [1] :: rest ∧ r.chk = (C.checkSig c0 sig pk (cleaned (p2pkhLock h) 0 sig)).2 := by
+  rw [coreEval_eq] at he
+  simp only [Option.getD_some] at he
+  rw [p2pkh_run H C _ h hh] at he
+  match s0, he with
+  | [], he => simp [pack, scriptErr] at he
+  | [_], he => simp [pack, scriptErr] at he
+  | pk :: sig :: rest, he =>
+    simp only [] at he
+    by_cases heq : h = H.hash160 pk
+    · rw [if_pos heq] at he
+      obtain ⟨h1, h2, h3⟩ := sigResult_sound C c0 _ sig pk rest _ _ r he ht
+      exact ⟨pk, sig, rest, rfl, heq.symm, h1, h2, h3⟩
+    · rw [if_neg heq] at he
+      simp [pack, scriptErr] at he
+
+/-- **P2PK is sound** (any direct push of 1..75 key bytes; `C03_p2pk_sound_33/65` are the two
+    standard forms): acceptance implies `check_sig` answered `Ok(true)` for the locked key and the
+    item that was on top of the stack. -/
+theorem C03_p2pk_sound {σ : Type} (H : Hashes) (C : Checker σ) (c0 : σ) (pk : Bytes)
+    (h1 : 1 ≤ pk.length) (h2 : pk.length ≤ 75)
+    (flags : Nat) (s0 : Stack) (alt : Option Stack) (r : EvalResult σ)
+    (he : coreEval H C c0 (p2pkLock pk) flags none none (some s0) alt = .ok r) (ht : TopTrue r) :
+    ∃ sig rest, s0 = sig :: rest ∧
+      (C.checkSig c0 sig pk (cleaned (p2pkLock pk) 0 sig)).1 = .ok true ∧
+      r.stack = [1] :: rest ∧ r.chk = (C.checkSig c0 sig pk (cleaned (p2pkLock pk) 0 sig)).2 := by
+  rw [coreEval_eq] at he
+  simp only [Option.getD_some] at he
+  rw [p2pk_run H C _ pk h1 h2] at he
+  match s0, he with
+  | [], he => simp [pack, scriptErr] at he
+  | sig :: rest, he =>
+    obtain ⟨h1, h2, h3⟩ := sigResult_sound C c0 _ sig pk rest _ _ r he ht
+    exact ⟨sig, rest, rfl, h1, h2, h3⟩
+
+theorem p2pkLock_33 (pk : Bytes) (h : pk.length = 33) : p2pkLock pk = [33] ++ pk ++ [0xac] := by
+  simp [p2pkLock, pushOf, h]
+
+theorem p2pkLock_65 (pk : Bytes) (h : pk.length = 65) : p2pkLock pk = [65] ++ pk ++ [0xac] := by
+  simp [p2pkLock, pushOf, h]
+
+theorem C03_p2pk_sound_33 {σ : Type} (H : Hashes) (C : Checker σ) (c0 : σ) (pk : Bytes) (hpk : pk.length = 33)
+    (flags : Nat) (s0 : Stack) (alt : Option Stack) (r : EvalResult σ)
+    (he : coreEval H C c0 ([33] ++ pk ++ [0xac]) flags none none (some s0) alt = .ok r) (ht : TopTrue r) :
+    ∃ sig rest, s0 = sig :: rest ∧
+      (C.checkSig c0 sig pk (cleaned ([33] ++ pk ++ [0xac]) 0 sig)).1 = .ok true := by
+  rw [← p2pkLock_33 pk hpk] at he ⊢
+  obtain ⟨sig, rest, h1, h2, -⟩ := C03_p2pk_sound H C c0 pk (by omega) (by omega) flags s0 alt r he ht
+  exact ⟨sig, rest, h1, h2⟩
+
+theorem C03_p2pk_sound_65 {σ : Type} (H : Hashes) (C : Checker σ) (c0 : σ) (pk : Bytes) (hpk : pk.length = 65)
+    (flags : Nat) (s0 : Stack) (alt : Option Stack) (r : EvalResult σ)
+    (he : coreEval H C c0 ([65] ++ pk ++ [0xac]) flags none none (some s0) alt = .ok r) (ht : TopTrue r) :
+    ∃ sig rest, s0 = sig :: rest ∧
+      (C.checkSig c0 sig pk (cleaned ([65] ++ pk ++ [0xac]) 0 sig)).1 = .ok true := by
+  rw [← p2pkLock_65 pk hpk] at he ⊢
+  obtain ⟨sig, rest, h1, h2, -⟩ := C03_p2pk_sound H C c0 pk (by omega) (by omega) flags s0 alt r he ht
+  exact ⟨sig, rest, h1, h2⟩
+
+/-! ### multisig -/
+
+/-- **the matching loop of `check_multisig`** answers `Ok(true)` exactly when every signature, in
+    order, is accepted (`check_sig = Ok(true)`, at the checker state reached at that point) under a
+    key strictly later in the list than the key that accepted the previous signature
+    (`Matches`, an inductive relation defined in `CG.Proofs.Templates`); there are then at most as
+    many signatures as keys. -/
+theorem C03_msloop_sound {σ : Type} (C : Checker σ) (scr : Bytes) (c c' : σ) (sigs keys : List Bytes)
+    (h : msLoop C scr c sigs keys = (.ok true, c')) :
+    Matches C scr c sigs keys c' ∧ sigs.length ≤ keys.length :=
+  ⟨(msLoop_true_iff C scr c c' sigs keys).mp h, ((msLoop_true_iff C scr c c' sigs keys).mp h).length_le⟩
+
+/-- and conversely (so `Matches` is exactly the loop's acceptance condition) -/
+theorem C03_msloop_complete {σ : Type} (C : Checker σ) (scr : Bytes) (c c' : σ) (sigs keys : List Bytes)
+    (h : Matches C scr c sigs keys c') : msLoop C scr c sigs keys = (.ok true, c') :=
+  (msLoop_true_iff C scr c c' sigs keys).mpr h
+
+/-- `Matches` read as an assignment: the accepting keys are a subsequence of the key list (strictly
+    increasing positions, hence pairwise distinct positions), one per signature, in order -/
+theorem C03_matches_increasing {σ : Type} (C : Checker σ) (scr : Bytes) (c c' : σ) (sigs keys : List Bytes)
+    (h : Matches C scr c sigs keys c') :
+    ∃ used : List Bytes, used.Sublist keys ∧ used.length = sigs.length ∧
+      ∀ p ∈ sigs.zip used, ∃ c1, (C.checkSig c1 p.1 p.2 scr).1 = .ok true :=
+  h.sublist
+
+/-- **m-of-n multisig is sound**, for every `1 ≤ m ≤ n ≤ 16` and every list of `n` keys pushed
+    directly (1..75 bytes each; 33 for compressed keys): if
+    `OP_m <k1> … <kn> OP_n OP_CHECKMULTISIG` completes with a true top item on ANY initial stack, then
+    that stack was `sig_m … sig_1 dummy …` (top first) with exactly `m` signatures, each accepted by
+    `check_sig` under its own, strictly earlier-and-earlier locked key (the loop walks the keys from
+    `kn` down to `k1`), with the locking script (minus pre-fork signatures) as script code. -/
+theorem C03_multisig_sound {σ : Type} (H : Hashes) (C : Checker σ) (c0 : σ) (m : Nat) (keys : List Bytes)
+    (h1 : 1 ≤ m) (h2 : m ≤ keys.length) (h3 : keys.length ≤ 16)
+    (hk : ∀ k ∈ keys, 1 ≤ k.length ∧ k.length ≤ 75)
+    (flags : Nat) (s0 : Stack) (alt : Option Stack) (r : EvalResult σ)
+    (he : coreEval H C c0 (multisigLock m keys) flags none none (some s0) alt = .ok r) (ht : TopTrue r) :
+    ∃ sigs dummy rest, s0 = sigs ++ dummy :: rest ∧ sigs.length = m ∧
+      Matches C (msCleaned (multisigLock m keys) sigs) c0 sigs keys.reverse r.chk ∧
+      r.stack = [1] :: rest := by
+  rw [coreEval_eq] at he
+  simp only [Option.getD_some] at he
+  rw [multisig_run H C _ m keys h1 h2 h3 hk] at he
+  by_cases hs : s0.length < m + 1
+  · rw [if_pos hs] at he; simp [pack, scriptErr] at he
+  · rw [if_neg hs] at he
+    rcases hl : msLoop C (msCleaned (multisigLock m keys) (s0.take m)) c0 (s0.take m) keys.reverse
+      with ⟨o, c'⟩
+    rw [hl] at he
+    cases o with
+    | ok b =>
+      simp only [msOutcome, pack, Outcome.ok.injEq] at he
+      subst he
+      obtain ⟨t, rest', hst, hb⟩ := ht
+      simp only [List.cons.injEq] at hst
+      rw [← hst.1, decodeBool_boolItem] at hb
+      subst hb
+      have hm : m < s0.length := by omega
+      refine ⟨s0.take m, s0[m], s0.drop (m + 1), ?_, by simp; omega,
+        (msLoop_true_iff _ _ _ _ _ _).mp hl, rfl⟩
+      rw [← List.drop_eq_getElem_cons hm, List.take_append_drop]
+    | err e => simp [msOutcome, pack] at he
+    | panic p => simp [msOutcome, pack] at he
+
+/-- the same, read as "m signatures, each valid under a distinct locked key": -/
+theorem C03_multisig_m_valid_signatures {σ : Type} (H : Hashes) (C : Checker σ) (c0 : σ) (m : Nat)
+    (keys : List Bytes) (h1 : 1 ≤ m) (h2 : m ≤ keys.length) (h3 : keys.length ≤ 16)
+    (hk : ∀ k ∈ keys, 1 ≤ k.length ∧ k.length ≤ 75)
+    (flags : Nat) (s0 : Stack) (alt : Option Stack) (r : EvalResult σ)
+    (he : coreEval H C c0 (multisigLock m keys) flags none none (some s0) alt = .ok r) (ht : TopTrue r) :
+    ∃ sigs dummy rest used, s0 = sigs ++ dummy :: rest ∧ sigs.length = m ∧ used.length = m ∧
+      used.Sublist keys.reverse ∧
+      ∀ p ∈ sigs.zip used, ∃ c1,
+        (C.checkSig c1 p.1 p.2 (msCleaned (multisigLock m keys) sigs)).1 = .ok true := by
+  obtain ⟨sigs, dummy, rest, e, hl, hm, -⟩ :=
+    C03_multisig_sound H C c0 m keys h1 h2 h3 hk flags s0 alt r he ht
+  obtain ⟨used, hsub, hlen, hall⟩ := hm.sublist
+  exact ⟨sigs, dummy, rest, used, e, hl, by omega, hsub, hall⟩
+
+/-! ## Authorisation: the three soundness theorems behind `C03_lock_always_runs`
+
+For EVERY unlocking script (any bytes): a spend of a key-locked output that validates went through
+the locking script's `check_sig` call(s), on the stack and checker state the unlocking script left,
+and they answered `Ok(true)` for the locked key(s). -/
+
+theorem C03_authorisation_p2pkh {σ : Type} (H : Hashes) (C : Checker σ) (c0 : σ) (unlock h : Bytes)
+    (hh : h.length = 20) (flags : Nat)
+    (hv : validateInput H C c0 unlock (p2pkhLock h) flags = .ok ()) :
+    ∃ r1 pk sig rest, coreEval H C c0 unlock flags none none none none = .ok r1 ∧
+      r1.stack = pk :: sig :: rest ∧ H.hash160 pk = h ∧
+      (C.checkSig r1.chk sig pk (cleaned (p2pkhLock h) 0 sig)).1 = .ok true := by
+  obtain ⟨r1, r2, e1, e2, ht⟩ := C03_lock_always_runs H C c0 unlock _ flags hv
+  obtain ⟨pk, sig, rest, hs, hp, hc, -⟩ := C03_p2pkh_sound H C r1.chk h hh flags r1.stack none r2 e2 ht
+  exact ⟨r1, pk, sig, rest, e1, hs, hp, hc⟩
+
+theorem C03_authorisation_p2pk {σ : Type} (H : Hashes) (C : Checker σ) (c0 : σ) (unlock pk : Bytes)
+    (h1 : 1 ≤ pk.length) (h2 : pk.length ≤ 75) (flags : Nat)
+    (hv : validateInput H C c0 unlock (p2pkLock pk) flags = .ok ()) :
+    ∃ r1 sig rest, coreEval H C c0 unlock flags none none none none = .ok r1 ∧
+      r1.stack = sig :: rest ∧
+      (C.checkSig r1.chk sig pk (cleaned (p2pkLock pk) 0 sig)).1 = .ok true := by
+  obtain ⟨r1, r2, e1, e2, ht⟩ := C03_lock_always_runs H C c0 unlock _ flags hv
+  obtain ⟨sig, rest, hs, hc, -⟩ := C03_p2pk_sound H C r1.chk pk h1 h2 flags r1.stack none r2 e2 ht
+  exact ⟨r1, sig, rest, e1, hs, hc⟩
+
+theorem C03_authorisation_multisig {σ : Type} (H : Hashes) (C : Checker σ) (c0 : σ) (unlock : Bytes)
+    (m : Nat) (keys : List Bytes) (h1 : 1 ≤ m) (h2 : m ≤ keys.length) (h3 : keys.length ≤ 16)
+    (hk : ∀ k ∈ keys, 1 ≤ k.length ∧ k.length ≤ 75) (flags : Nat)
+    (hv : validateInput H C c0 unlock (multisigLock m keys) flags = .ok ()) :
+    ∃ r1 sigs dummy rest c2, coreEval H C c0 unlock flags none none none none = .ok r1 ∧
+      r1.stack = sigs ++ dummy :: rest ∧ sigs.length = m ∧
+      Matches C (msCleaned (multisigLock m keys) sigs) r1.chk sigs keys.reverse c2 := by
+  obtain ⟨r1, r2, e1, e2, ht⟩ := C03_lock_always_runs H C c0 unlock _ flags hv
+  obtain ⟨sigs, dummy, rest, hs, hl, hm, -⟩ :=
+    C03_multisig_sound H C r1.chk m keys h1 h2 h3 hk flags r1.stack none r2 e2 ht
+  exact ⟨r1, sigs, dummy, rest, r2.chk, e1, hs, hl, hm⟩
+
+/-- **authorisation**: the three statements together, each for every unlocking script, checker,
+    checker state, hash functions and rule set. -/
+theorem C03_authorisation {σ : Type} (H : Hashes) (C : Checker σ) (c0 : σ) (unlock : Bytes) (flags : Nat) :
+    (∀ h : Bytes, h.length = 20 → validateInput H C c0 unlock (p2pkhLock h) flags = .ok () →
+      ∃ r1 pk sig rest, coreEval H C c0 unlock flags none none none none = .ok r1 ∧
+        r1.stack = pk :: sig :: rest ∧ H.hash160 pk = h ∧
+        (C.checkSig r1.chk sig pk (cleaned (p2pkhLock h) 0 sig)).1 = .ok true) ∧
+    (∀ pk : Bytes, 1 ≤ pk.length → pk.length ≤ 75 →
+      validateInput H C c0 unlock (p2pkLock pk) flags = .ok () →
+      ∃ r1 sig rest, coreEval H C c0 unlock flags none none none none = .ok r1 ∧
+        r1.stack = sig :: rest ∧
+        (C.checkSig r1.chk sig pk (cleaned (p2pkLock pk) 0 sig)).1 = .ok true) ∧
+    (∀ (m : Nat) (keys : List Bytes), 1 ≤ m → m ≤ keys.length → keys.length ≤ 16 →
+      (∀ k ∈ keys, 1 ≤ k.length ∧ k.length ≤ 75) →
+      validateInput H C c0 unlock (multisigLock m keys) flags = .ok () →
+      ∃ r1 sigs dummy rest c2, coreEval H C c0 unlock flags none none none none = .ok r1 ∧
+        r1.stack = sigs ++ dummy :: rest ∧ sigs.length = m ∧
+        Matches C (msCleaned (multisigLock m keys) sigs) r1.chk sigs keys.reverse c2) :=
+  ⟨fun h hh hv => C03_authorisation_p2pkh H C c0 unlock h hh flags hv,
+   fun pk h1 h2 hv => C03_authorisation_p2pk H C c0 unlock pk h1 h2 flags hv,
+   fun m keys h1 h2 h3 hk hv => C03_authorisation_multisig H C c0 unlock m keys h1 h2 h3 hk flags hv⟩
+
+/-- **no valid signature, no spend** (contrapositive form, P2PKH): if the checker never answers
+    `Ok(true)` for a key hashing to `h`, no unlocking script whatsoever spends the output. -/
+theorem C03_no_signature_no_spend_p2pkh {σ : Type} (H : Hashes) (C : Checker σ) (c0 : σ) (unlock h : Bytes)
+    (hh : h.length = 20) (flags : Nat)
+    (hno : ∀ c sig pk scr, H.hash160 pk = h → (C.checkSig c sig pk scr).1 ≠ .ok true) :
+    validateInput H C c0 unlock (p2pkhLock h) flags ≠ .ok () := by
+  intro hv
+  obtain ⟨r1, pk, sig, rest, -, -, hp, hc⟩ := C03_authorisation_p2pkh H C c0 unlock h hh flags hv
+  exact hno _ _ _ _ hp hc
+
+theorem C03_no_signature_no_spend_p2pk {σ : Type} (H : Hashes) (C : Checker σ) (c0 : σ) (unlock pk : Bytes)
+    (h1 : 1 ≤ pk.length) (h2 : pk.length ≤ 75) (flags : Nat)
+    (hno : ∀ c sig scr, (C.checkSig c sig pk scr).1 ≠ .ok true) :
+    validateInput H C c0 unlock (p2pkLock pk) flags ≠ .ok () := by
+  intro hv
+  obtain ⟨r1, sig, rest, -, -, hc⟩ := C03_authorisation_p2pk H C c0 unlock pk h1 h2 flags hv
+  exact hno _ _ _ hc
+
+/-- multisig: if the checker never accepts anything under any of the locked keys, no unlocking
+    script spends the output -/
+theorem C03_no_signature_no_spend_multisig {σ : Type} (H : Hashes) (C : Checker σ) (c0 : σ) (unlock : Bytes)
+    (m : Nat) (keys : List Bytes) (h1 : 1 ≤ m) (h2 : m ≤ keys.length) (h3 : keys.length ≤ 16)
+    (hk : ∀ k ∈ keys, 1 ≤ k.length ∧ k.length ≤ 75) (flags : Nat)
+    (hno : ∀ c sig k scr, k ∈ keys → (C.checkSig c sig k scr).1 ≠ .ok true) :
+    validateInput H C c0 unlock (multisigLock m keys) flags ≠ .ok () := by
+  intro hv
+  obtain ⟨r1, sigs, dummy, rest, c2, -, -, hl, hm⟩ :=
+    C03_authorisation_multisig H C c0 unlock m keys h1 h2 h3 hk flags hv
+  obtain ⟨used, hsub, hlen, hall⟩ := hm.sublist
+  match sigs, used, hl, hlen, hsub, hall with
+  | [], _, hl, _, _, _ => simp at hl; omega
+  | _ :: _, [], _, hlen, _, _ => simp at hlen
+  | sg :: _, k :: _, _, _, hsub, hall =>
+    obtain ⟨c1, hc⟩ := hall (sg, k) (by simp)
+    have hmem : k ∈ keys := by
+      have := hsub.subset (List.mem_cons_self)
+      simpa using this
+    exact hno _ _ _ _ hmem hc
+
+/-! ### the hypotheses are satisfiable: a genuine spend of each template is accepted -/
+
+/-- a checker that accepts exactly the listed (signature, key) pairs -/
+def acceptOnly (ok : List (Bytes × Bytes)) : Checker Unit :=
+  { checkSig := fun _ sig pk _ => (.ok (ok.contains (sig, pk)), ())
+    checkLocktime := fun _ _ => .err "ScriptError"
+    checkSequence := fun _ _ => .err "ScriptError" }
+
+def sigA : Bytes := [0x30, 0x06, 0x02, 0x01, 0x01, 0x02, 0x01, 0x01, 0x41]
+def sigB : Bytes := [0x30, 0x06, 0x02, 0x01, 0x02, 0x02, 0x01, 0x02, 0x41]
+def key20 : Bytes := List.replicate 20 7
+def keyA : Bytes := 2 :: List.replicate 32 0xaa
+def keyB : Bytes := 3 :: List.replicate 32 0xbb
+def keyC : Bytes := 2 :: List.replicate 32 0xcc
+
+/-- P2PKH (`hash160 = id` in `noHashes`, so the 20-byte "key" is its own hash): `<sig> <key>` spends -/
+example : validateInput noHashes (acceptOnly [(sigA, key20)]) () (pushOf sigA ++ pushOf key20)
+    (p2pkhLock key20) 0 = .ok () := by decide +kernel
+/-- … under pre-genesis rules too, and not with the other signature -/
+example : validateInput noHashes (acceptOnly [(sigA, key20)]) () (pushOf sigA ++ pushOf key20)
+    (p2pkhLock key20) 1 = .ok () := by decide +kernel
+example : validateInput noHashes (acceptOnly [(sigA, key20)]) () (pushOf sigB ++ pushOf key20)
+    (p2pkhLock key20) 0 = .err "ScriptError" := by decide +kernel
+
+/-- P2PK: `<sig>` spends -/
+example : validateInput noHashes (acceptOnly [(sigA, keyA)]) () (pushOf sigA) (p2pkLock keyA) 0 = .ok () := by
+  decide +kernel
+example : validateInput noHashes (acceptOnly [(sigA, keyA)]) () (pushOf sigB) (p2pkLock keyA) 0
+    = .err "ScriptError" := by decide +kernel
+
+/-- 2-of-3 multisig: `OP_0 <sig under k1> <sig under k3>` spends; the same signatures in the wrong
+    order do not -/
+example : validateInput noHashes (acceptOnly [(sigA, keyA), (sigB, keyC)]) ()
+    ([0x00] ++ pushOf sigA ++ pushOf sigB) (multisigLock 2 [keyA, keyB, keyC]) 0 = .ok () := by
+  decide +kernel
+example : validateInput noHashes (acceptOnly [(sigA, keyA), (sigB, keyC)]) ()
+    ([0x00] ++ pushOf sigB ++ pushOf sigA) (multisigLock 2 [keyA, keyB, keyC]) 0 = .err "ScriptError" := by
+  decide +kernel
+
+
+/-! ## Signature form: strict DER, low S, 9..73 bytes
+
+`CG.Model.Der` models what `generate_signature` does around the k256 signer (normalise S, DER
+framing, sighash byte); the signer's output is any pair `0 < r, s < n`.  `CG.Spec.Der` is BIP-66's
+`IsValidSignatureEncoding` and the BIP-62/146 low-S bound, from the BIP texts. -/
+
+section der
+open CG.Model.Der CG.Spec.Der CG.Proofs.Der
+
+/-- the DER framing of any `0 < r, s < 2^256` passes BIP-66's checks (DER part, without the sighash
+    byte) and is 8 to 72 bytes long -/
+theorem C03_der_strict (r s : Nat) (hr0 : 0 < r) (hr : r < 2 ^ 256) (hs0 : 0 < s) (hs : s < 2 ^ 256) :
+    StrictDer (derEncode r s) ∧ 8 ≤ (derEncode r s).length ∧ (derEncode r s).length ≤ 72 := by
+  have gR := uintContent_good r hr0 hr
+  have gS := uintContent_good s hs0 hs
+  rw [derEncode_eq_frame r s rfl rfl gR.len33 gS.len33]
+  refine ⟨frame_strict gR gS, ?_, ?_⟩
+  · rw [frame_length]; have := gR.len1; have := gS.len1; simp; omega
+  · rw [frame_length]; have := gR.len33; have := gS.len33; simp; omega
+
+/-- a parser for strict DER recovers exactly `(r, s)` … -/
+theorem C03_der_roundtrip (r s : Nat) (hr0 : 0 < r) (hr : r < 2 ^ 256) (hs0 : 0 < s) (hs : s < 2 ^ 256) :
+    derDecode (derEncode r s) = some (r, s) := by
+  have gR := uintContent_good r hr0 hr
+  have gS := uintContent_good s hs0 hs
+  rw [derEncode_eq_frame r s rfl rfl gR.len33 gS.len33]
+  exact frame_decode gR gS
+
+/-- … so the framing is injective: two different `(r, s)` never share an encoding -/
+theorem C03_der_injective (r s r' s' : Nat) (hr0 : 0 < r) (hr : r < 2 ^ 256) (hs0 : 0 < s) (hs : s < 2 ^ 256)
+    (hr0' : 0 < r') (hr' : r' < 2 ^ 256) (hs0' : 0 < s') (hs' : s' < 2 ^ 256)
+    (h : derEncode r s = derEncode r' s') : r = r' ∧ s = s' := by
+  have h1 := C03_der_roundtrip r s hr0 hr hs0 hs
+  have h2 := C03_der_roundtrip r' s' hr0' hr' hs0' hs'
+  rw [h, h2] at h1
+  simp only [Option.some.injEq, Prod.mk.injEq] at h1
+  exact ⟨h1.1.symm, h1.2.symm⟩
+
+theorem n_eq_order : CG.Model.Der.n = order := rfl
+theorem halfOrder_eq : halfOrder = order / 2 := by decide +kernel
+theorem order_odd : order = 2 * halfOrder + 1 := by decide +kernel
+theorem order_lt : order < 2 ^ 256 := by decide +kernel
+
+/-- normalisation yields a low S: `0 < normalizeS s ≤ n / 2` for every `0 < s < n` (and it is `s` or
+    `n - s`, the two values under which an ECDSA signature verifies) -/
+theorem C03_low_s (s : Nat) (hs0 : 0 < s) (hs : s < CG.Model.Der.n) :
+    0 < normalizeS s ∧ normalizeS s ≤ CG.Model.Der.n / 2 ∧ LowS (normalizeS s) ∧
+      (normalizeS s = s ∨ normalizeS s = CG.Model.Der.n - s) := by
+  have e1 : CG.Model.Der.n = 2 * halfOrder + 1 := order_odd
+  unfold LowS normalizeS
+  generalize halfOrder = hf at *
+  generalize CG.Model.Der.n = nn at *
+  subst e1
+  split <;> omega
+
+/-- already-low values are left alone -/
+theorem C03_low_s_idempotent (s : Nat) (h : s ≤ CG.Model.Der.n / 2) : normalizeS s = s := by
+  unfold normalizeS; rw [if_neg (by omega)]
+
+/-- every signature the library produces (for any signer output `0 < r, s < n` and any sighash
+    byte) passes BIP-66 `IsValidSignatureEncoding` as a whole … -/
+theorem C03_sig_bip66 (r s : Nat) (t : UInt8) (hr0 : 0 < r) (hr : r < CG.Model.Der.n) (hs0 : 0 < s)
+    (hs : s < CG.Model.Der.n) : isValidSignatureEncoding (generateSignature r s t) = true := by
+  obtain ⟨l0, l1, -, -⟩ := C03_low_s s hs0 hs
+  have hlt := order_lt
+  rw [← n_eq_order] at hlt
+  have hs' : normalizeS s < 2 ^ 256 := by
+    have : CG.Model.Der.n / 2 ≤ CG.Model.Der.n := Nat.div_le_self _ _
+    omega
+  have gR := uintContent_good r hr0 (by omega)
+  have gS := uintContent_good (normalizeS s) l0 hs'
+  unfold generateSignature
+  rw [derEncode_eq_frame r _ rfl rfl gR.len33 gS.len33, ← frame_append]
+  exact frame_bip66 gR gS t
+
+/-- … and is 9 to 73 bytes long, of the form `der ‖ type` with `der` strict DER encoding
+    `(r, normalizeS s)` with a low S -/
+theorem C03_sig_length (r s : Nat) (t : UInt8) (hr0 : 0 < r) (hr : r < CG.Model.Der.n) (hs0 : 0 < s)
+    (hs : s < CG.Model.Der.n) :
+    9 ≤ (generateSignature r s t).length ∧ (generateSignature r s t).length ≤ 73 ∧
+    ∃ der, generateSignature r s t = der ++ [t] ∧ StrictDer der ∧
+      derDecode der = some (r, normalizeS s) ∧ LowS (normalizeS s) := by
+  obtain ⟨l0, l1, l2, -⟩ := C03_low_s s hs0 hs
+  have hlt := order_lt
+  rw [← n_eq_order] at hlt
+  have hs' : normalizeS s < 2 ^ 256 := by
+    have : CG.Model.Der.n / 2 ≤ CG.Model.Der.n := Nat.div_le_self _ _
+    omega
+  obtain ⟨d1, d2, d3⟩ := C03_der_strict r (normalizeS s) hr0 (by omega) l0 hs'
+  refine ⟨by simp [generateSignature]; omega, by simp [generateSignature]; omega,
+    derEncode r (normalizeS s), rfl, d1, C03_der_roundtrip r _ hr0 (by omega) l0 hs', l2⟩
+
+/-- the length bounds are attained: the shortest and a longest signature -/
+example : generateSignature 1 1 0x41 = [0x30, 6, 2, 1, 1, 2, 1, 1, 0x41] := by decide +kernel
+example : (generateSignature (CG.Model.Der.n - 1) (CG.Model.Der.n / 2) 0x41).length = 72 := by decide +kernel
+example : (derEncode (2 ^ 255) (2 ^ 255)).length = 72 := by decide +kernel
+/-- `s = n - 1` is high and becomes `1` -/
+example : normalizeS (CG.Model.Der.n - 1) = 1 := by decide +kernel
+/-- BIP-66 rejects what the framing never produces: a negative R, a padded R, a wrong length -/
+example : strictDerB [0x30, 6, 2, 1, 0x80, 2, 1, 1] = false ∧ strictDerB [0x30, 7, 2, 2, 0, 1, 2, 1, 1] = false ∧
+    strictDerB [0x30, 7, 2, 1, 1, 2, 1, 1] = false ∧ strictDerB [0x30, 7, 2, 2, 0, 0x80, 2, 1, 1] = true := by
+  decide +kernel
+
+end der
 
 end CG.Props.C03
